@@ -172,15 +172,50 @@ class _Subst(ast.NodeTransformer):
         return self.generic_visit(n)
 
 
+_NAMES_IN: Dict[int, FrozenSet[str]] = {}
+_KEEP: List[ast.AST] = []  # keeps analysed nodes alive so that id() keys stay unique
+_SUBST_MEMO: Dict[Tuple, ast.AST] = {}
+_TEXT_MEMO: Dict[Tuple, str] = {}
+
+
+def _names_in(node: ast.AST) -> FrozenSet[str]:
+    k = id(node)
+    r = _NAMES_IN.get(k)
+    if r is None:
+        r = frozenset(n.id for n in ast.walk(node) if isinstance(n, ast.Name) and isinstance(n.ctx, ast.Load))
+        _NAMES_IN[k] = r
+        _KEEP.append(node)
+    return r
+
+
+def _relevant(node: ast.AST, state: PState) -> Tuple:
+    names = _names_in(node)
+    if not names or not state.env:
+        return ()
+    return tuple((k, v) for k, v in state.env if k in names and v != k)
+
+
 def subst(node: ast.AST, state: PState) -> ast.AST:
-    env = dict(state.env)
-    if not env:
+    rel = _relevant(node, state)
+    if not rel:
         return node
-    return ast.fix_missing_locations(_Subst(env).visit(copy.deepcopy(node)))
+    key = (id(node), rel)
+    r = _SUBST_MEMO.get(key)
+    if r is None:
+        r = ast.fix_missing_locations(_Subst(dict(rel)).visit(copy.deepcopy(node)))
+        _SUBST_MEMO[key] = r
+    return r
 
 
 def subst_text(node: ast.AST, state: PState) -> str:
-    return ast.unparse(subst(node, state))
+    rel = _relevant(node, state)
+    key = (id(node), rel)
+    r = _TEXT_MEMO.get(key)
+    if r is None:
+        _names_in(node)  # pins the node
+        r = ast.unparse(subst(node, state))
+        _TEXT_MEMO[key] = r
+    return r
 
 
 def calls_in_order(node: ast.AST) -> List[ast.Call]:
